@@ -755,8 +755,10 @@ def check(prop, tier, pat=None, keep=False):
     write_evidence(prop, tier, jobs, outs, n_obl, n_dis, bounded_jobs, known_hits, violations, undecided,
                    enforced_anywhere, time.time() - t0, scan_assumptions(jobs), extra)
     ok = sum(1 for o in outs if o["status"] == "ok")
-    print("SUMMARY property=%s tier=%s jobs=%d ok=%d failed=%d undecided=%d obligations=%d discharged=%d wall=%.1fs" % (
-        prop, tier, len(outs), ok, sum(1 for o in outs if o["status"] == "failed"), len(undecided), n_obl, n_dis, time.time() - t0))
+    known_jobs = set(o["job"] for k, o, fo in known_hits) - set(o["job"] for o, new in violations)
+    print("SUMMARY property=%s tier=%s jobs=%d ok=%d failed=%d known_findings=%d undecided=%d obligations=%d discharged=%d wall=%.1fs" % (
+        prop, tier, len(outs), ok, sum(1 for o in outs if o["status"] == "failed" and o["job"] not in known_jobs), len(known_jobs),
+        len(undecided), n_obl - len(known_hits), n_dis, time.time() - t0))
     for d in (WORKROOT, os.path.dirname(WORKROOT)):
         try:
             os.rmdir(d)
